@@ -111,8 +111,9 @@ class C13(Property):
             "order) and a share of unsorted/empty ones; hmmer.remove_overlapping with limits {0,1,5,10,20}, scores and "
             "cut-offs in quarter units, shuffles; cluster_prediction filters with identity-compared HSPs, 0-2 "
             "equivalence groups; docking filter around the 50-residue bounds.  thorough/deep adds the exhaustive small "
-            "scope (protein length 12, <= 3 hits (4 sampled), profiles {A,B} of lengths {5,10}, scores {1,2}, all "
-            "intervals, both modes).  non-trivial = the function dropped or merged at least one hit")
+            "scope (protein length 12, profiles {A,B} of hmm lengths {5,10}, scores {1,2}, e-value fixed, both modes: every "
+            "pair of hits over all intervals of 7 lengths, every triple over the even-start intervals of 4 lengths, 20000 "
+            "sampled quadruples).  non-trivial = the function dropped or merged at least one hit")
     TRUSTED = [
         "Python floats: bitscores are generated as decimal tenths, e-values as k*2^-60, hmmer scores/cut-offs as "
         "quarter units; the thresholds 0.20*M, 0.5*M, 1.5*M, len/M > 1/3, len1/M1 > len2/M2, cutoff/score are modelled "
@@ -189,11 +190,11 @@ class C13(Property):
 
     def cases(self, rng: random.Random, tier: str, deep: bool) -> Iterator[Dict[str, Any]]:
         mult = 10 if deep else 1
-        for _ in range(2500 * mult):
+        for _ in range(6000 * mult):
             lens = self.rand_lens(rng)
             yield {"kind": "refine", "lens": lens, "nb": rng.random() < 0.5, "hits": self.rand_hits(rng, lens),
                    "pseed": rng.randrange(1 << 30)}
-        for _ in range(1500 * mult):
+        for _ in range(3000 * mult):
             lens = self.rand_lens(rng)
             hits = self.rand_hits(rng, lens)
             r = rng.random()
@@ -202,13 +203,13 @@ class C13(Property):
             elif r < 0.88:
                 hits = []
             yield {"kind": "remov", "lens": lens, "hits": hits}
-        for _ in range(1200 * mult):
+        for _ in range(2500 * mult):
             lens = self.rand_lens(rng)
             hits = self.rand_hits(rng, lens, nmax=5)
             if rng.random() < 0.05:
                 hits = []
             yield {"kind": "incomplete", "lens": lens, "hits": hits}
-        for _ in range(800 * mult):
+        for _ in range(1500 * mult):
             lens = self.rand_lens(rng)
             hits = self.rand_hits(rng, lens)
             r = rng.random()
@@ -217,13 +218,13 @@ class C13(Property):
             elif r < 0.88:
                 hits = []
             yield {"kind": "merge", "lens": lens, "nb": rng.random() < 0.5, "hits": hits}
-        for _ in range(2500 * mult):
+        for _ in range(5000 * mult):
             yield self.rand_hmmer(rng)
-        for _ in range(800 * mult):
-            yield self.rand_multiple(rng)
         for _ in range(1500 * mult):
+            yield self.rand_multiple(rng)
+        for _ in range(3000 * mult):
             yield self.rand_equiv(rng)
-        for _ in range(400 * mult):
+        for _ in range(500 * mult):
             yield self.rand_dock(rng)
         if deep:
             yield from self.small_scope(rng, full=(tier == "thorough"))
@@ -325,7 +326,7 @@ class C13(Property):
                 yield {"kind": "refine", "lens": lens, "nb": nb, "hits": [a, b], "pseed": 1}
         thin = [h for h in singles if (h[1] % 2 == 0 and h[2] - h[1] in (2, 3, 6, 8))]
         for trio in itertools.combinations(thin, 3):
-            if rng.random() > (0.25 if full else 0.01):
+            if not full and rng.random() > 0.01:
                 continue
             for nb in (False, True):
                 total += 1
@@ -359,7 +360,9 @@ class C13(Property):
         assert set(res) <= {"cds"}
         # 2. explicit enumerations of the set
         uniq = [list(t) for t in dict.fromkeys(tuple(h) for h in hits)]
-        if len(uniq) <= 4:
+        if not uniq:
+            orders = []    # no hit, no entry for the gene: nothing to enumerate
+        elif len(uniq) <= 4:
             orders = [list(p) for p in itertools.permutations(uniq)]
         else:
             prng = random.Random(case.get("pseed", 0))
